@@ -2663,3 +2663,325 @@ func init() {
 	addDoc("C06", "R06o every shift by a non-constant amount is bounded below the word width (no machine-word bit set indexed by column positions).")
 	addDoc("C05", "R05m as R06o for the hierarchical readers.")
 }
+
+// ---------------------------------------------------------------- round 6
+
+// handWrittenTransformers: a type of the library that implements golang.org/x/text/transform.Transformer is a byte
+// filter with its own handling of short destination/source buffers, exactly like a hand-written io.Reader (R09d): how it
+// behaves when a multi-byte sequence straddles the end of dst/src depends on how much each Read delivered (seed C09-15: a
+// windows-1252 "ASCII fast path" decoder truncated a sequence that did not fit into dst).
+func handWrittenTransformers(c *core.Ctx, rule string) {
+	tp := c.AnyPkg("golang.org/x/text/transform")
+	if tp == nil {
+		c.OK(rule, "no hand-written transform.Transformer in library code", 0, "golang.org/x/text/transform is not part of the program")
+		return
+	}
+	ti, _ := tp.Types.Scope().Lookup("Transformer").Type().Underlying().(*types.Interface)
+	if ti == nil {
+		c.Unresolved(rule, "transform.Transformer", "interface not found")
+		return
+	}
+	n := 0
+	for _, p := range c.Pkgs {
+		if core.IsCLIOrSample(p.Types) {
+			continue
+		}
+		for _, t := range implementersIn(p.Types, ti) {
+			n++
+			nt := core.NamedOf(t)
+			c.Unknown(rule, "type "+core.Rel(nt.Obj().Pkg().Path())+"."+nt.Obj().Name()+" implements transform.Transformer", nt.Obj().Pos(), "a hand-written byte transformer sits in the input path: its behaviour when a sequence straddles the end of the destination or source buffer (ErrShortDst/ErrShortSrc, atEOF) cannot be shown by this analysis, and those boundaries depend on how the input is delivered")
+		}
+	}
+	c.OK(rule, "no hand-written transform.Transformer in library code", 0, fmt.Sprintf("%d implementation(s)", n))
+}
+
+// tokenBytesUntouched: between the scanner and the values handed on (RawSeg.Raw, RawSegElem.Data) the bytes of a token
+// are only sliced at delimiter positions by the escape-aware splitter (strs.ByteSplitWithEsc) and stripped of the
+// segment delimiter / the CR of the "\n" rule. Any other byte primitive applied to token content in the EDI package —
+// trimming (bytes.Trim*, TrimSpace), replacing, case mapping, or a split that knows nothing about the release character
+// or takes a piece limit (bytes.Split*, SplitN, Fields, Cut) — changes what reaches the transform (seeds C07-17: leading
+// CR/LF trimmed off the token; C07-18: bytes.SplitN with the capacity hint as piece limit).
+func tokenBytesUntouched(c *core.Ctx, rule, pkg string) {
+	c.SSA()
+	p := c.Pkg(pkg)
+	if p == nil {
+		c.Unresolved(rule, "package "+pkg, "not loaded")
+		return
+	}
+	isBytes := func(t types.Type) bool {
+		sl, ok := t.Underlying().(*types.Slice)
+		if !ok {
+			return false
+		}
+		if b, ok := sl.Elem().Underlying().(*types.Basic); ok && b.Kind() == types.Byte {
+			return true
+		}
+		if in, ok := sl.Elem().Underlying().(*types.Slice); ok {
+			b, ok := in.Elem().Underlying().(*types.Basic)
+			return ok && b.Kind() == types.Byte
+		}
+		return false
+	}
+	n := 0
+	for _, f := range c.RepoFunctions() {
+		if core.FuncPkg(f) != p.Types {
+			continue
+		}
+		var content func(v ssa.Value, seen map[ssa.Value]bool, d int) bool
+		content = func(v ssa.Value, seen map[ssa.Value]bool, d int) bool {
+			if v == nil || seen[v] || d > 16 {
+				return false
+			}
+			seen[v] = true
+			switch x := v.(type) {
+			case *ssa.Parameter:
+				return isBytes(x.Type()) && !(f.Signature.Recv() != nil && len(f.Params) > 0 && x == f.Params[0])
+			case *ssa.Call:
+				if o := core.CalleeObj(x); o != nil && o.Pkg() != nil && o.Pkg().Path() == "bufio" && core.FuncName(o) == "Scanner.Bytes" {
+					return true
+				}
+				if !isBytes(x.Type()) {
+					return false
+				}
+				for _, a := range x.Call.Args {
+					if content(a, seen, d+1) {
+						return true
+					}
+				}
+				return false
+			case *ssa.Slice:
+				return content(x.X, seen, d+1)
+			case *ssa.Phi:
+				for _, e := range x.Edges {
+					if content(e, seen, d+1) {
+						return true
+					}
+				}
+			case *ssa.UnOp:
+				if x.Op == token.MUL {
+					if a, ok := x.X.(*ssa.Alloc); ok {
+						for _, r := range core.Referrers(a) {
+							if st, ok := r.(*ssa.Store); ok && st.Addr == a && content(st.Val, seen, d+1) {
+								return true
+							}
+						}
+					}
+					if ia, ok := x.X.(*ssa.IndexAddr); ok {
+						return content(ia.X, seen, d+1)
+					}
+				}
+			case *ssa.Extract:
+				return content(x.Tuple, seen, d+1)
+			}
+			return false
+		}
+		for _, ci := range core.Calls(f) {
+			o := core.CalleeObj(ci)
+			if o == nil || o.Pkg() == nil || (o.Pkg().Path() != "bytes" && o.Pkg().Path() != "strings") {
+				continue
+			}
+			name := o.Name()
+			altering := strings.HasPrefix(name, "Trim") || strings.HasPrefix(name, "Replace") || strings.HasPrefix(name, "To") || strings.HasPrefix(name, "Split") ||
+				strings.HasPrefix(name, "Fields") || name == "Cut" || name == "Map" || name == "Title" || name == "Repeat"
+			if !altering || len(ci.Common().Args) == 0 || !content(ci.Common().Args[0], map[ssa.Value]bool{}, 0) {
+				continue
+			}
+			n++
+			c.Bad(rule, core.FuncKey(f)+" applies "+o.Pkg().Path()+"."+name+" to token bytes", core.InstrPos(ci), o.Pkg().Path()+"."+name+" is applied to the bytes of a scanned token: outside the escape-aware splitter and the documented delimiter/CR strip nothing may remove, rewrite or re-split token content (a plain split ignores the release character; a piece limit glues the remaining elements together)")
+		}
+	}
+	c.OK(rule, "token bytes are only sliced by the escape-aware splitter", 0, fmt.Sprintf("%d content-altering bytes/strings primitive(s) applied to token content in package %s", n, pkg))
+}
+
+// selectorIsPatternMatch: the verdict of a column's line selector (line_pattern) is the compiled pattern's own Match on
+// the line; every other boolean the selector function returns is a constant or an index comparison (line_index). A
+// hand-made equivalent of the pattern (seed C06-15: bytes.HasPrefix with the pattern's literal prefix) answers
+// differently for un-anchored patterns.
+func selectorIsPatternMatch(c *core.Ctx, rule string, pkgs []string) {
+	c.SSA()
+	n := 0
+	for _, f := range c.RepoFunctions() {
+		if core.IsCLIOrSample(core.FuncPkg(f)) || !inPkgs(core.FuncPkg(f), pkgs) || f.Signature.Recv() == nil {
+			continue
+		}
+		res := f.Signature.Results()
+		if res.Len() != 1 {
+			continue
+		}
+		if b, ok := res.At(0).Type().Underlying().(*types.Basic); !ok || b.Kind() != types.Bool {
+			continue
+		}
+		// a selector: takes a []byte line and consults a regexp
+		var lineP *ssa.Parameter
+		for _, prm := range f.Params {
+			if sl, ok := prm.Type().Underlying().(*types.Slice); ok {
+				if b, ok := sl.Elem().Underlying().(*types.Basic); ok && b.Kind() == types.Byte {
+					lineP = prm
+				}
+			}
+		}
+		usesRegexp := false
+		for _, ci := range core.Calls(f) {
+			if o := core.CalleeObj(ci); o != nil && o.Pkg() != nil && (o.Pkg().Path() == "regexp" || (o.Pkg().Path() == "github.com/jf-tech/go-corelib/caches" && o.Name() == "GetRegex")) {
+				usesRegexp = true
+			}
+		}
+		if lineP == nil || !usesRegexp {
+			continue
+		}
+		n++
+		key := core.FuncKey(f) + " line selector verdict"
+		bad := ""
+		var leaf func(v ssa.Value, seen map[ssa.Value]bool)
+		leaf = func(v ssa.Value, seen map[ssa.Value]bool) {
+			if v == nil || seen[v] || bad != "" {
+				return
+			}
+			seen[v] = true
+			switch x := v.(type) {
+			case *ssa.Const:
+			case *ssa.Phi:
+				for _, e := range x.Edges {
+					leaf(e, seen)
+				}
+			case *ssa.BinOp:
+				// index comparison (line_index) or boolean combination: operands must not read the line
+				for _, op := range []ssa.Value{x.X, x.Y} {
+					if c04DependsOn(op, func(y ssa.Value) bool { return y == ssa.Value(lineP) }) {
+						bad = "a comparison over the line's bytes (" + x.String() + ")"
+					}
+				}
+			case *ssa.UnOp:
+				leaf(x.X, seen)
+			case *ssa.Call:
+				o := core.CalleeObj(x)
+				if o != nil && o.Pkg() != nil && o.Pkg().Path() == "regexp" && strings.HasPrefix(o.Name(), "Match") {
+					return
+				}
+				bad = "the result of " + x.Call.String()
+			default:
+				bad = v.String()
+			}
+		}
+		for _, rt := range c19Returns(f) {
+			leaf(rt.Results[0], map[ssa.Value]bool{})
+		}
+		c.Check(bad == "", rule, key, f.Pos(), "every verdict is a constant, an index comparison or the compiled pattern's Match on the line",
+			"the selector's verdict can be "+bad+" instead of the compiled line_pattern's own Match: a hand-made approximation of the pattern selects different lines for patterns it does not model (un-anchored literals, alternations, classes)")
+	}
+	if n == 0 {
+		c.Unresolved(rule, "line selectors", "no bool method taking a []byte line and consulting a regexp found in "+strings.Join(pkgs, ", "))
+	}
+}
+
+// trimControlledByDeclaration: whether a value is trimmed is decided by the declaration (no_trim) and by the value's
+// kind, never by the characters of the value. A "nothing to trim" shortcut that looks at the first/last byte (seed
+// C02-14) skips values padded with non-ASCII white space.
+func trimControlledByDeclaration(c *core.Ctx, rule, pkg string) {
+	c.SSA()
+	p := c.Pkg(pkg)
+	if p == nil {
+		c.Unresolved(rule, "package "+pkg, "not loaded")
+		return
+	}
+	n := 0
+	for _, f := range c.RepoFunctions() {
+		if core.FuncPkg(f) != p.Types {
+			continue
+		}
+		for _, ci := range core.Calls(f) {
+			if !core.IsCallTo(ci, "strings", "TrimSpace") {
+				continue
+			}
+			n++
+			key := core.FuncKey(f) + " trims under the declaration's control only"
+			bad := token.NoPos
+			for _, ed := range controlDeps(f).controlling(ci.Block()) {
+				ifi := ed.ifInstr()
+				if ifi == nil {
+					continue
+				}
+				if c04DependsOn(ifi.Cond, func(v ssa.Value) bool {
+					// an inspection of string content: element load, length, comparison of a non-constant string
+					switch y := v.(type) {
+					case *ssa.Lookup:
+						b, ok := y.X.Type().Underlying().(*types.Basic)
+						return ok && b.Info()&types.IsString != 0
+					case *ssa.Call:
+						if bi, ok := y.Call.Value.(*ssa.Builtin); ok && bi.Name() == "len" && len(y.Call.Args) == 1 {
+							b, ok := y.Call.Args[0].Type().Underlying().(*types.Basic)
+							return ok && b.Info()&types.IsString != 0
+						}
+						if o := core.CalleeObj(y); o != nil && o.Pkg() != nil && (o.Pkg().Path() == "strings" || o.Pkg().Path() == "unicode" || o.Pkg().Path() == "unicode/utf8") {
+							return true
+						}
+					case *ssa.BinOp:
+						for _, op := range []ssa.Value{y.X, y.Y} {
+							if b, ok := op.Type().Underlying().(*types.Basic); ok && b.Info()&types.IsString != 0 {
+								if _, isK := op.(*ssa.Const); !isK {
+									return true
+								}
+							}
+						}
+					}
+					return false
+				}) {
+					bad = core.InstrPos(ifi)
+				}
+			}
+			c.Check(!bad.IsValid(), rule, key, core.InstrPos(ci), "controlled by the declaration (no_trim) and the value's kind",
+				"whether the value is trimmed depends on a test of its characters: values whose padding the test does not recognise (non-ASCII white space) are emitted untrimmed, stay non-empty, and fail numeric casts")
+		}
+	}
+	if n == 0 {
+		c.Unresolved(rule, "trim site", "no strings.TrimSpace call in package "+pkg)
+	}
+}
+
+func init() {
+	wrapRun("C09", func(c *core.Ctx) {
+		if c.CountRule("R09k") == 0 {
+			handWrittenTransformers(c, "R09k")
+		}
+	})
+	wrapRun("C18", func(c *core.Ctx) {
+		if c.CountRule("R18g") == 0 {
+			handWrittenTransformers(c, "R18g")
+		}
+	})
+	wrapRun("C07", func(c *core.Ctx) {
+		if c.CountRule("R07m") == 0 {
+			tokenBytesUntouched(c, "R07m", "extensions/omniv21/fileformat/edi")
+		}
+	})
+	wrapRun("C06", func(c *core.Ctx) {
+		if c.CountRule("R06p") == 0 {
+			selectorIsPatternMatch(c, "R06p", []string{"extensions/omniv21/fileformat/fixedlength", "extensions/omniv21/fileformat/flatfile/fixedlength", "extensions/omniv21/fileformat/flatfile/csv"})
+		}
+	})
+	wrapRun("C02", func(c *core.Ctx) {
+		if c.CountRule("R02l") == 0 {
+			trimControlledByDeclaration(c, "R02l", "extensions/omniv21/transform")
+		}
+		// R02k (= C01 R01e / C10 R10g): the bytes handed out for a record are a fresh json.Marshal result: a reused output
+		// buffer makes an emitted record change after the fact (seed C02-15)
+		if c.CountRule("R02k") == 0 {
+			importRules(c, "C01", map[string]string{"R01e": "R02k"})
+			c.Floor("R02k", 3, "returns of the built-in Ingester.Read")
+		}
+	})
+	wrapRun("C05", func(c *core.Ctx) {
+		// R05n (= C09 R09a/R09i/R09j): a buffered line that still aliases the decoder's buffer when it is refilled is
+		// overwritten by later input: the record is matched/built from the wrong unit (seed C05-16)
+		if c.CountRule("R05n") == 0 {
+			importRules(c, "C09", map[string]string{"R09a": "R05n", "R09i": "R05n", "R09j": "R05n"})
+			c.Floor("R05n", 15, "borrowed-buffer discipline")
+		}
+	})
+	addDoc("C09", "R09k no hand-written golang.org/x/text/transform.Transformer in library code.")
+	addDoc("C18", "R18g (= R09k) no hand-written transform.Transformer: the charmap decoders are the library's.")
+	addDoc("C07", "R07m no trimming/replacing/case-mapping/plain-splitting bytes or strings primitive is applied to token content in the EDI package.")
+	addDoc("C06", "R06p the verdict of a line selector is a constant, an index comparison or the compiled pattern's Match.")
+	addDoc("C02", "R02k (= C01 R01e) record bytes are a fresh json.Marshal result. R02l the strings.TrimSpace of the normaliser is controlled by the declaration and the value's kind only, never by a test of its characters.")
+	addDoc("C05", "R05n (= C09 R09a/R09i/R09j) borrowed-buffer discipline.")
+}
